@@ -145,6 +145,13 @@ def handle (op : String) (args : List String) : Option String :=
       match getSlice g axis idx with
       | some l => some (showList (l.map showLoft))
       | none => some "IndexError"
+  | "c19.delete", [nx, ny, nz, i, j, k] => do
+      -- `mesh.delete(stack.grid[k][j][i])`: the operations that are left (the blocks of the assembled mesh, see C12)
+      let nx ← nx.toNat?; let ny ← ny.toNat?; let nz ← nz.toNat?; let i ← i.toNat?; let j ← j.toNat?; let k ← k.toNat?
+      let g ← stackGrid nx ny nz
+      match ((g[k]?).bind (·[j]?)).bind (·[i]?) with
+      | some c => some (showList (((stackOps g).filter (fun o => decide (o ≠ c))).map showLoft))
+      | none => some "IndexError"
   | "c19.sketch", [name] => do
       let r ← sketchRow? name
       let cs := coreShell r
